@@ -329,7 +329,7 @@ def rand_wire_pkt(R, flags=None):
             "payload": R.choice(["", "", "", "41", "474554202f"]),
             "trailer": R.choice([""] * 6 + ["00", "000000000000", "aabb", "474554", bytes(R.randrange(256) for _ in range(R.randint(1, 18))).hex()])}
     if R.random() < 0.15:
-        spec["link"] = R.choice(["ether", "ether", "dot1q", "sll"])      # as sniffed: inside a link-layer frame
+        spec["link"] = R.choice(["ether", "ether", "dot1q", "sll", "tunnel"])      # as sniffed: inside a link-layer frame / an IPv4 tunnel
     if R.random() < 0.05:
         # a payload Scapy dissects as a layer of its own (DNS over TCP, with scapy.layers.dns loaded), not as Raw
         spec["dport"] = 53
